@@ -11,6 +11,7 @@ import (
 
 	"verif/checker/internal/lin"
 	"verif/checker/internal/load"
+	"verif/checker/internal/sym"
 )
 
 type Mode int
@@ -365,7 +366,7 @@ func (it *Interp) symbolicParam(t types.Type, name string, fr *Frame, pos token.
 			return IntV{E: it.Sym(name)}
 		}
 		if u.Info()&types.IsNumeric != 0 {
-			return NumV{From: name}
+			return NumV{From: name, Sym: sym.V("cfg:" + name)}
 		}
 		return Opaque{Why: "param " + name}
 	case *types.Slice:
@@ -392,7 +393,7 @@ func (it *Interp) symbolicParam(t types.Type, name string, fr *Frame, pos token.
 	case *types.Signature:
 		return Opaque{Why: "func param " + name}
 	case *types.TypeParam:
-		return NumV{From: name}
+		return NumV{From: name, Sym: sym.V("cfg:" + name)}
 	}
 	if isModuleNamedOrIface(t) {
 		return it.newSymObject(t, name)
@@ -1323,7 +1324,7 @@ func (it *Interp) symbolicField(t types.Type, path string) Value {
 			return IntV{E: it.Sym(path)}
 		}
 		if u.Info()&types.IsNumeric != 0 {
-			return NumV{From: path}
+			return NumV{From: path, Sym: sym.V("cfg:" + path)}
 		}
 		return Opaque{Why: "field " + path}
 	case *types.Slice:
@@ -1334,7 +1335,7 @@ func (it *Interp) symbolicField(t types.Type, path string) Value {
 		return &Slice{Homog: true, Rep: &Cell{V: Opaque{Why: "elem"}}, Len: it.Sym("len(" + path + ")")}
 	}
 	if _, ok := t.(*types.TypeParam); ok {
-		return NumV{From: path}
+		return NumV{From: path, Sym: sym.V("cfg:" + path)}
 	}
 	if isModuleNamedOrIface(t) {
 		return it.newSymObject(t, path)
@@ -1358,10 +1359,14 @@ func (it *Interp) evalUnary(fr *Frame, x *ast.UnaryExpr) Value {
 		case IntV:
 			return IntV{E: lin.Neg(t.E)}
 		case NumV:
-			if t.Lit != "" {
-				return NumV{Lit: "-" + t.Lit}
+			var sx sym.Expr
+			if ts, ok := NumSym(t); ok {
+				sx = sym.Neg{X: ts}
 			}
-			return NumV{From: "-" + t.From}
+			if t.Lit != "" {
+				return NumV{Lit: "-" + t.Lit, Sym: sx}
+			}
+			return NumV{From: "-" + t.From, Sym: sx}
 		}
 		return Opaque{Why: "neg"}
 	case token.NOT:
@@ -1456,6 +1461,14 @@ func (it *Interp) binop(fr *Frame, op token.Token, l, r Value, pos token.Pos) Va
 		_, ln := l.(NumV)
 		_, rn := r.(NumV)
 		if (ln || lok) && (rn || rok) {
+			ls, ok1 := NumSym(l)
+			rs, ok2 := NumSym(r)
+			if ok1 && ok2 {
+				ops := map[token.Token]string{token.ADD: "+", token.SUB: "-", token.MUL: "*", token.QUO: "/"}
+				if o, ok := ops[op]; ok {
+					return NumV{From: "arith", Sym: sym.Bin{Op: o, L: ls, R: rs}}
+				}
+			}
 			return NumV{From: "arith"}
 		}
 	}
